@@ -286,4 +286,86 @@ Section WithOrder.
         * simpl. rewrite Hl. reflexivity.
         * rewrite !view_nth. apply Hv.
   Qed.
+
+  (* ---------------------------------------------------------------- the merge function of Load *)
+
+  Definition top_step (fix3 strip_keys : bool) (acc : res (list (key * cfg))) (kv : key * cfg) :=
+    match acc with
+    | Panic => Panic
+    | Ok dest =>
+        let k := if strip_keys then strip (fst kv) else fst kv in
+        match merge sh fix3 (get k dest) (snd kv) with
+        | Ok nv => Ok (set k nv dest)
+        | Panic => Panic
+        end
+    end.
+
+  Lemma merge_top_unfold fix3 st dest src :
+    merge_top sh fix3 st dest src = fold_left (top_step fix3 st) (sh 1 src) (Ok dest).
+  Proof. reflexivity. Qed.
+
+  Lemma Tidy_set s nv acc : Tidy (Map acc) -> nv <> Nil -> Tidy nv -> Tidy (Map (set (K s) nv acc)).
+  Proof.
+    intros T N Tn. destruct (Tidy_Map_inv _ T) as [ND FE]. apply Tidy_Map_intro.
+    - apply set_NoDup. assumption.
+    - rewrite Forall_forall in *. intros e H. apply In_set in H as [->|H]; [|auto].
+      unfold entry_ok; simpl; eauto.
+  Qed.
+
+  Lemma merge_top_fold : forall L acc,
+    Forall entry_ok L -> NoDup (map fst L) -> Tidy (Map acc) ->
+    (forall k v old, In (k, v) L -> lookup k acc = Some old -> compat old v) ->
+    exists r, fold_left (top_step false false) L (Ok acc) = Ok r /\ Tidy (Map r) /\
+              forall s q, view (SK s :: q) (Map r)
+                          = njoin (view (SK s :: q) (Map acc)) (view (SK s :: q) (Map L)).
+  Proof.
+    induction L as [|[k v] L' IH]; intros acc FE ND Ta HC.
+    - exists acc. simpl. splits; auto. intros s q. rewrite njoin_none_r. reflexivity.
+    - apply Forall_cons_iff in FE as [E0 FE']. destruct E0 as ((s0 & Hs0) & Nv & Tv). simpl in Hs0, Nv, Tv. subst k.
+      simpl in ND. apply NoDup_cons_iff in ND as [Nin ND'].
+      assert (X : exists nv, merge sh false (get (K s0) acc) v = Ok nv /\ nv <> Nil /\ Tidy nv /\
+                             forall q, view q nv = njoin (view q (get (K s0) acc)) (view q v)).
+      { unfold get. destruct (lookup (K s0) acc) as [old|] eqn:E.
+        - destruct (Tidy_lookup _ _ _ Ta E) as [No To].
+          apply (merge_with_view _ old v No Nv To Tv). apply (HC (K s0) v old); [left; reflexivity | assumption].
+        - exists (clean_asis sh v). destruct (clean_tidy v Tv) as (A & B & C0). unfold merge. simpl. splits; auto.
+          intro q. rewrite C0, view_Nil, njoin_none_l. reflexivity. }
+      destruct X as (nv & Hm & Nn & Tn & Hv).
+      destruct (IH (set (K s0) nv acc) FE' ND' (Tidy_set _ _ _ Ta Nn Tn)) as (r & Hr & Tr & Hvr).
+      { intros k v' old Hin Hl. rewrite lookup_set in Hl. destruct (key_eqb k (K s0)) eqn:E.
+        - apply key_eqb_eq in E; subst k. exfalso. apply Nin. apply in_map_iff. exists (K s0, v'); auto.
+        - apply (HC k v' old); [right; assumption | assumption]. }
+      exists r. splits; auto.
+      { simpl. unfold get in Hm |- *. rewrite Hm. exact Hr. }
+      intros s q. rewrite Hvr. simpl. rewrite lookup_set. rewrite !key_eqb_K.
+      destruct (String.eqb s s0) eqn:E.
+      + apply String.eqb_eq in E; subst s0.
+        assert (E' : lookup (K s) L' = None) by (apply lookup_None; assumption).
+        rewrite E'. rewrite njoin_none_r. rewrite Hv. unfold get.
+        destruct (lookup (K s) acc); [reflexivity | rewrite view_Nil; reflexivity].
+      + reflexivity.
+  Qed.
+
+  (** Load's merge function on well-formed trees: the later source wins per
+      leaf, the earlier one fills what the later one does not define *)
+  Theorem merge_top_view d f :
+    Tidy (Map d) -> Tidy (Map f) -> compat (Map d) (Map f) ->
+    exists r, merge_top sh false false d f = Ok r /\ Tidy (Map r) /\
+              forall p, view p (Map r) = njoin (view p (Map d)) (view p (Map f)).
+  Proof.
+    intros Td Tf C. rewrite merge_top_unfold.
+    destruct (Tidy_Map_inv _ Tf) as [NDf FEf].
+    assert (P1 : Permutation (sh 1 f) f) by apply sh_perm.
+    assert (ND1 : NoDup (map fst (sh 1 f))).
+    { eapply perm_NoDup_keys; [apply Permutation_sym; exact P1 | exact NDf]. }
+    destruct (merge_top_fold (sh 1 f) d) as (r & Hr & Tr & Hv); auto.
+    - eapply Permutation_Forall; [apply Permutation_sym; exact P1 | exact FEf].
+    - intros k v old Hin Hl.
+      assert (Hin' : In (k, v) f) by (eapply Permutation_in; eauto).
+      assert (Hs : exists s, k = K s).
+      { rewrite Forall_forall in FEf. destruct (FEf _ Hin') as ((s & Hs) & _). simpl in Hs. eauto. }
+      destruct Hs as [s ->]. eapply compat_lookup; [exact C | exact Hl |]. apply NoDup_lookup; assumption.
+    - exists r. splits; auto. intros [|[s|i] q]; try reflexivity.
+      rewrite Hv. rewrite (view_perm (SK s :: q) (sh 1 f) f ND1 P1). reflexivity.
+  Qed.
 End WithOrder.
